@@ -348,7 +348,22 @@ class StructSequenceGetFieldsImpl(Contract):
         self.tbl_null = z3.Bool('tp_members_is_null')
         st.facts.append(ss_n_members(c) >= 0)
         st.facts.append(z3.Implies(self.tbl_null, ss_n_members(c) == 0))
-        self.n_attr = z3.Int('n_sequence_fields_now')
+        # the loop variables are found by role, not by name (a renamed local must not break the invariants)
+        self.counter, self.index, self.bound = 'n_members', 'i', 'n_sequence_fields'
+        for d in eng.walk(fn):
+            if d.k == 'WhileStmt':
+                inc = next((u for u in eng.walk(d) if u.k == 'UnaryOperator' and u.get('op') == '++'), None)
+                ref = next((r for r in eng.walk(inc) if r.k == 'DeclRefExpr'), None) if inc is not None else None
+                if ref is not None and ref.name:
+                    self.counter = ref.name
+            if d.k == 'ForStmt':
+                var = next((v for v in eng.walk(d.c[0]) if v.k == 'VarDecl'), None) if d.c else None
+                if var is not None and var.name:
+                    self.index = var.name
+                    cond = next((b for b in eng.walk(d) if b.k == 'BinaryOperator' and b.get('op') in ('<', '!=')), None)
+                    refs = [r.name for r in eng.walk(cond) if r.k == 'DeclRefExpr' and r.name != var.name] if cond is not None else []
+                    if refs:
+                        self.bound = refs[0]
         return cx
 
     def member_hook(self, eng, st, base, name, n):
@@ -407,12 +422,12 @@ class StructSequenceGetFieldsImpl(Contract):
         return None
 
     def count_inv(self, cx):
-        k = cx.var('n_members')
+        k = cx.var(self.counter)
         return [('count-in-range', z3.And(0 <= k, k <= ss_n_members(self.cls))), ('table-not-null', z3.Not(self.tbl_null))]
 
     def fill_inv(self, cx):
-        i = cx.var('i')
-        return [('index-in-range', z3.And(0 <= i, i <= cx.var('n_sequence_fields')))]
+        i = cx.var(self.index)
+        return [('index-in-range', z3.And(0 <= i, i <= cx.var(self.bound)))]
 
     def post(self, cx, ret):
         n0 = M.py_as_int(T.nt_attr(self.cls, T.nt_name('n_sequence_fields')))
